@@ -350,7 +350,7 @@ func doTransmit(s *xmpp.Session, form string, sh shape, streamNS string) (err er
 }
 
 func shapesBody(c *nd.Ctx) nd.Result {
-	role := c.Choose(3, "stream") // 0 client-to-server, 1 server-to-server initiated by us, 2 server-to-server received
+	role := c.Choose(4, "stream") // 0 client-to-server, 1 server-to-server initiated by us, 2 server-to-server received, 3 the same established by the default negotiator (addresses learned from the peer's header)
 	s2s := role != 0
 	form := forms[c.Choose(len(forms), "form")]
 	sh := shape{name: names[c.Choose(len(names), "name")], ns: spaces[c.Choose(len(spaces), "namespace")]}
@@ -374,11 +374,14 @@ func shapesBody(c *nd.Ctx) nd.Result {
 	if role == 2 {
 		mk = sess.NewReceived
 	}
+	if role == 3 {
+		mk = sess.NewReceivedNegotiated
+	}
 	s, rw, err := mk(streamNS, "")
 	if err != nil {
 		panic("c05: setup: " + err.Error())
 	}
-	desc := fmt.Sprintf("%s name=%s ns=%q id=%d from=%d xmlns-attr=%v nested=%v payload=%d s2s=%v received=%v", form, sh.name, sh.ns, sh.id, sh.from, sh.xmlnsAttr, sh.nested, sh.payload, s2s, role == 2)
+	desc := fmt.Sprintf("%s name=%s ns=%q id=%d from=%d xmlns-attr=%v nested=%v payload=%d s2s=%v stream-kind=%d", form, sh.name, sh.ns, sh.id, sh.from, sh.xmlnsAttr, sh.nested, sh.payload, s2s, role)
 	var terr error
 	var applicable bool
 	before := rw.Out.Len()
